@@ -335,6 +335,10 @@ func (t *Task) runWithLocking() {
 
 	// enter executing state
 	t.executing = true
+	// Reset executeAt to detect if the next execution is set while the task
+	// runs. This is done with the lock held: a Schedule() call from now on
+	// stands, and is not wiped out when the task's goroutine starts.
+	t.executeAt = time.Time{}
 	t.lock.Unlock()
 
 	// wait for good timeslot regarding microtasks
@@ -432,9 +436,6 @@ func (t *Task) executeWithLocking() {
 			t.Queue()
 		}
 	}()
-
-	// reset executeAt to detect if task set next execution itself
-	t.executeAt = time.Time{}
 
 	// run
 	err := t.taskFn(t.ctx, t)
